@@ -78,8 +78,9 @@ def oldestFrame (r : Ring α) : α := r.slots r.oldestIdx
 /-- slot index used by `CopyRecent()`: `(currentIndex - 1 + size) % size` -/
 def recentIdx (r : Ring α) : Nat := (r.cur + r.size - 1) % r.size
 
-/-- `CopyRecent()` -/
-def recent (r : Ring α) : α := r.slots r.recentIdx
+/-- `CopyRecent()`: `none` (nil) until a frame has been completed since creation / reset -/
+def recent (r : Ring α) : Option α :=
+  if r.cur = 0 ∧ r.full = false then none else some (r.slots r.recentIdx)
 
 end Ring
 end TR
